@@ -9,6 +9,12 @@ Emitted
   catalogDirParts       : List (List Char)   [".pytask", "data_catalogs"]
   catalogEntrySuffix    : List Char          ".pkl"
   catalogNodeSuffix     : List Char          "-node.pkl"
+
+These flat facts are what `Catalog.lean` consumes directly. They are read with the recognisers of `extract_catalogsrc.py` (the tie
+section, tolerant to renamed locals / helper variables / compiled pattern constants); the CODE around them (statements of
+`__attrs_post_init__`, `__getitem__`, `add`, `PickleNode.load/save`) is extracted there as data and proved equal to the model in
+`lean/PytaskProofs/Properties/CatalogTie.lean`. The helpers `_validator_facts`, `_path_facts`, `_pickle_node_facts` below are the
+former text-comparison recognisers; `section()` no longer calls them.
 """
 from __future__ import annotations
 
